@@ -118,6 +118,12 @@ impl MultiPeerBackend for SubSocketBackend {
             let _ = monitor.try_send(SocketEvent::Disconnected(peer_id.clone()));
         }
         self.peers.remove_sync(peer_id);
+        match &self.fair_queue_inner {
+            None => {}
+            Some(inner) => {
+                inner.lock().remove(peer_id);
+            }
+        };
     }
 }
 
